@@ -13,6 +13,7 @@ CONSTANTS
   TypeOf <- MCTypeOf2
   RootTypes <- MCRoot
   Edits <- MCEditsQ
+  EncToks <- MCEncQ
   HelperToks <- MCHelpersQ
   ImportToks <- MCImportsQ3
   CmtToks <- MCCmt
